@@ -836,10 +836,26 @@ void exec_case(gen_t& g, long icase, bool thorough, double eps, const case_t& c,
     {
         const auto run = [&](const tensor2d_t& data, const scalar_stats_t& st, const std::string& tag, const auto& en, bool isfresh)
         {
+            // targets go through the 4D overloads (as targets_iterator_t does), inputs through the 2D ones
+            const auto use4d  = tag == "t";
             tensor2d_t scaled = data;
-            st.scale(modes[mode], scaled.tensor());
+            if (use4d)
+            {
+                st.scale(modes[mode], scaled.reshape(data.rows(), data.cols(), 1, 1));
+            }
+            else
+            {
+                st.scale(modes[mode], scaled.tensor());
+            }
             tensor2d_t upscaled = scaled;
-            st.upscale(modes[mode], upscaled.tensor());
+            if (use4d)
+            {
+                st.upscale(modes[mode], upscaled.reshape(data.rows(), data.cols(), 1, 1));
+            }
+            else
+            {
+                st.upscale(modes[mode], upscaled.tensor());
+            }
             for (tensor_size_t col = 0; col < data.cols(); ++col)
             {
                 const auto id = std::to_string(icase) + "." + tag + std::to_string(col);
